@@ -2114,11 +2114,16 @@ def read_lines(path_or_source, *, include=False, include_dirs=None):
     if is_path:
         base_path = os.path.dirname(os.path.abspath(path_or_source))
     else:
-        base_path = os.getcwd()
+        try:
+            base_path = os.getcwd()
+        except OSError:
+            # the working directory is gone: nothing beside a raw source
+            base_path = None
 
     # the adjacent dir is always present and include-able
     current_dirs = copy.deepcopy(include_dirs or [])
-    current_dirs.append(base_path)
+    if base_path is not None:
+        current_dirs.append(base_path)
 
     lines = []
     # only real newlines end a line: str.splitlines() would also break at
